@@ -38,6 +38,10 @@ var (
 */
 func Decode(r io.Reader) p.DpFactory {
 	return func() (p.DataProvider, *p.ZogIssue) {
+		if r == nil {
+			// e.g. the Body of a request built with http.NewRequest(method, url, nil)
+			return nil, &p.ZogIssue{Code: zconst.IssueCodeInvalidJSON, Err: errors.New("no json body")}
+		}
 		closer, ok := r.(io.Closer)
 		if ok {
 			defer closer.Close()
